@@ -107,7 +107,8 @@ def grammar_cases(tier, seed, work, stats, fams, pools):
     return cases
 
 
-POOLS = [("upper", "ab"), ("upper", "ab"), ("fresh", "ab"), ("int", "int"), ("upper", "ab"), ("alg", "ab")]
+POOLS = [("upper", "ab"), ("upper", "ab"), ("fresh", "ab"), ("int", "int"), ("upper", "ab"), ("alg", "ab"),
+         ("clash", "ab")]      # variables with the values of the terminals (Variable("a") is not Terminal("a"))
 
 
 def generate(tier, seed, work, stats):
